@@ -171,23 +171,63 @@ def check_frame(arg):
     return st
 
 
+def run_history(case):
+    """several frames built and interrogated one after the other in ONE process: whatever the library
+    remembers between calls (a cache keyed by the frame size, say) must not leak from one frame into the
+    next.  Sides of 10 and more are included (two-digit sizes)."""
+    for (h, w) in case["history"]:
+        st = check_frame((h, w, 0))
+        if st.failures:
+            sig, d = sorted(st.failures.items())[0]
+            raise Failure(sig + "|after-other-frames", observed=d["observed"], expected=d["expected"],
+                          detail=dict(frame=[h, w]))
+
+
+def shard_history(arg):
+    from hypothesis import strategies as hs
+    from vlib.harness import hyp_search
+
+    seed, n = arg
+    st = Stats()
+    side = hs.sampled_from([0, 1, 1, 2, 3, 10, 11, 12, 13, 21, 23])
+    frame = hs.tuples(side, side).filter(lambda t: t[0] * t[1] <= 40).map(list)
+    # a frame and its transpose, or frames whose decimal sizes concatenate alike, in one history
+    hist = hs.lists(frame, min_size=2, max_size=5).map(lambda fs: fs + [[f[1], f[0]] for f in fs[:2]])
+    strat = hs.builds(lambda h: dict(history=h), hist)
+
+    def b(case):
+        run_history(case)
+        st.case(canon=case, nontrivial=any(max(f) >= 10 for f in case["history"]), classes=["history"],
+                sample=case)
+
+    hyp_search(st, strat, b, seed=seed, max_examples=n, check="c14.history", rounds=2)
+    return st
+
+
 def run(ctx):
     ctx.rule = (
         "exhaustive: every BoolGridFrame with 0 <= h, w <= 5 (thorough 8), variable ids starting at 0 and at "
         "an offset; every doubled coordinate in [-2, 2h+2] x [-2, 2w+2], every cell in [-1, h+1]^2, every "
         "point in [-1, h+2]^2, both call styles; all_edges/iteration; dual, dual of dual, inner iteration; "
         "the (edge list, graph) inferred by the loop constraints. non-trivial = frame with h, w >= 1 and a "
-        "coordinate on the outer boundary or outside; distinct by construction")
-    ctx.exhaustive = True
+        "coordinate on the outer boundary or outside; distinct by construction. Histories: 3-7 frames with "
+        "sides from {0..3, 10..13, 21, 23} (and transposes) built and interrogated in one process")
+    ctx.exhaustive = False  # the single-frame part is exhaustive in its scope, the histories are sampled
     side = 5 if ctx.quick() else 8
     jobs = [(h, w, base) for h in range(side + 1) for w in range(side + 1) for base in (0, 3)]
     for r in pmap(check_frame, jobs):
         ctx.stats.merge(r)
     ctx.floor("frames", len(jobs), 60)
+    for r in pmap(shard_history, [(ctx.seed * 1000 + i, 12 if ctx.quick() else 150) for i in range(8)]):
+        ctx.stats.merge(r)
+    ctx.floor("histories of several frames in one process", ctx.stats.classes["history"], 40)
 
 
 def replay(ctx, rep):
     c = rep["case"]
+    if "history" in c:
+        run_history(c)
+        return
     st = check_frame((c["h"], c["w"], c.get("base", 0)))
     if st.failures:
         sig, d = sorted(st.failures.items())[0]
